@@ -6,6 +6,7 @@ reference; plus the pipeline entry points (connected_components(f, g) / f.co_equ
 """
 
 import itertools
+import os
 
 from mc import core
 
@@ -70,28 +71,107 @@ def work(vt, first_edges, maxlen):
     return part.dump()
 
 
+FOREST_N = 8
+
+
+def forest_work(prefix, maxlen):
+    """Deeper slice by symmetry reduction: every edge list of length <= maxlen over <= 8 vertices in
+    which each edge joins two different components (a forest-building history, the only edges that
+    change the algorithm's state), enumerated up to vertex renaming (vertices numbered by first
+    appearance), each under two labelings: ascending and descending by first appearance."""
+    from data_algebra.connected_components import connected_components
+
+    part = core.Part([])
+    N = FOREST_N
+    n = 0
+
+    def visit(f, g):
+        nonlocal n
+        for lab in (0, 1):
+            ff = [N - 1 - v for v in f] if lab else f
+            gg = [N - 1 - v for v in g] if lab else g
+            got = connected_components(ff, gg)
+            want = reference(ff, gg)
+            n += 1
+            if list(got) != want:
+                part.violation({"vertex_type": "int", "f": list(ff), "g": list(gg), "got": list(got), "want": want}, f"connected_components({list(ff)}, {list(gg)}) = {list(got)}, expected {want}")
+
+    def rec(f, g, nv, comp):
+        if f:
+            visit(f, g)
+        if len(f) == maxlen:
+            return
+        for a in range(min(nv + 1, N)):
+            nv1 = max(nv, a + 1)
+            for b in range(min(nv1 + 1, N)):
+                if b == a:
+                    continue
+                nv2 = max(nv1, b + 1)
+                c = comp + list(range(len(comp), nv2))
+                if c[a] == c[b]:
+                    continue
+                ca, cb = c[a], c[b]
+                rec(f + [a], g + [b], nv2, [ca if x == cb else x for x in c])
+
+    # replay the prefix (must itself be canonical and forest-building)
+    comp, nv = [], 0
+    for a, b in prefix:
+        nv = max(nv, a + 1, b + 1)
+        comp = comp + list(range(len(comp), nv))
+        ca, cb = comp[a], comp[b]
+        assert ca != cb
+        comp = [ca if x == cb else x for x in comp]
+    rec([a for a, _ in prefix], [b for _, b in prefix], nv, comp)
+    part.count("forest_evaluations", n)
+    return part.dump()
+
+
+def forest_prefixes(k):
+    out = []
+
+    def rec(pre, nv, comp):
+        if len(pre) == k:
+            out.append(list(pre))
+            return
+        for a in range(min(nv + 1, FOREST_N)):
+            nv1 = max(nv, a + 1)
+            for b in range(min(nv1 + 1, FOREST_N)):
+                if b == a:
+                    continue
+                nv2 = max(nv1, b + 1)
+                c = comp + list(range(len(comp), nv2))
+                if c[a] == c[b]:
+                    continue
+                ca, cb = c[a], c[b]
+                rec(pre + [(a, b)], nv2, [ca if x == cb else x for x in c])
+
+    rec([], 0, [])
+    return out
+
+
 def pipeline_cases(run, maxlen):
     """connected_components through the expression entry points, on Pandas."""
     import pandas
     from data_algebra.data_ops import descr
 
-    verts = [0, 1, 2]
-    edges = list(itertools.product(verts, repeat=2))
     n = 0
-    for k in range(1, maxlen + 1):
-        for el in itertools.product(edges, repeat=k):
-            f = [e[0] for e in el]
-            g = [e[1] for e in el]
-            d = pandas.DataFrame({"f": f, "g": g})
-            want = reference(f, g)
-            for expr in ("connected_components(f, g)", "f.co_equalizer(g)"):
-                ops = descr(d=d).extend({"c": expr})
-                res = ops.transform(d)
-                got = list(res["c"])
-                n += 1
-                run.outcome(("pipeline", tuple(want)))
-                if got != want or list(res["f"]) != f or list(res["g"]) != g:
-                    run.violation({"expr": expr, "f": f, "g": g, "got": got, "want": want}, f"extend({{'c': '{expr}'}}) on f={f} g={g} gives {got}, expected {want}")
+    # all three vertex types: an executor may route non-numeric vertex columns differently (C23-r4m2)
+    for verts in ([0, 1, 2], ["a", "b", "c"], [-1, 0.5, 2]):
+        edges = list(itertools.product(verts, repeat=2))
+        for k in range(1, maxlen + 1):
+            for el in itertools.product(edges, repeat=k):
+                f = [e[0] for e in el]
+                g = [e[1] for e in el]
+                d = pandas.DataFrame({"f": f, "g": g})
+                want = reference(f, g)
+                for expr in ("connected_components(f, g)", "f.co_equalizer(g)"):
+                    ops = descr(d=d).extend({"c": expr})
+                    res = ops.transform(d)
+                    got = list(res["c"])
+                    n += 1
+                    run.outcome(("pipeline", tuple(want)))
+                    if got != want or list(res["f"]) != f or list(res["g"]) != g:
+                        run.violation({"expr": expr, "f": f, "g": g, "got": got, "want": want}, f"extend({{'c': '{expr}'}}) on f={f} g={g} gives {got}, expected {want}")
     run.count("pipeline_evaluations", n)
 
 
@@ -113,9 +193,14 @@ def run(tier):
         run.count("evaluations")
         if list(got) != []:
             run.violation({"f": [], "g": []}, "empty edge list")
+    # forest-building histories up to renaming, 3..7 edges over <= 8 vertices, one task per canonical 3-edge prefix
+    # (lists of 1-2 edges are covered by the complete enumeration above)
+    fl = int(os.environ.get("VERIF_C23_FOREST_LEN", "7"))
+    for p in core.pmap(forest_work, [(pre, fl) for pre in forest_prefixes(3)]):
+        run.merge(p)
     pipeline_cases(run, 3 if tier == "quick" else 4)
     run.sample({"f": [1, 4, 6, 2, 1], "g": [2, 5, 7, 3, 7], "labels": reference([1, 4, 6, 2, 1], [2, 5, 7, 3, 7])})
-    ev = run.cov.get("evaluations", 0) + run.cov.get("pipeline_evaluations", 0)
+    ev = run.cov.get("evaluations", 0) + run.cov.get("pipeline_evaluations", 0) + run.cov.get("forest_evaluations", 0)
     run.set("evaluations", ev)
     run.set("states", ev)
     run.set("transitions", ev)
@@ -123,7 +208,7 @@ def run(tier):
     run.assumptions += ["vertex values are hashable and totally ordered within one list (ints; strings; ints mixed with floats)"]
     return run.finish(
         exhaustive=True,
-        rule=f"every edge list of length <= {maxlen} over 4 vertices (16 possible edges incl. self loops) for 3 vertex types; plus every edge list of length <= {3 if tier=='quick' else 4} over 3 vertices through extend() on Pandas; oracle: union-find labelling by least vertex",
+        rule=f"every edge list of length <= {maxlen} over 4 vertices (16 possible edges incl. self loops) for 3 vertex types; plus every forest-building edge list (each edge joins two different components) of length <= 7 over <= 8 vertices up to vertex renaming, under the ascending and the descending labelling by first appearance; plus every edge list of length <= {3 if tier=='quick' else 4} over 3 vertices, for the same 3 vertex types, through extend() on Pandas; oracle: union-find labelling by least vertex",
     )
 
 
